@@ -38,12 +38,12 @@ Theorem C11_consistent_invariant_partial : forall (s : st) (o : op) (retain : Z)
   (* failed and undone install, refresh, revert *)
   (forall j, accepts o s = true -> (okind o = OInstall \/ okind o = ORefresh \/ okind o = ORevert) ->
      forallb (fun t => negb (is_discard t)) (firstn j (tasks_for o s retain inuse)) = true ->
-     rs_guard o s -> cfg_guard o s ->
+     cfg_guard o s ->
      wf (run_change o (S j) (tasks_for o s retain inuse) s)).
 Proof.
   intros s o retain inuse W. split; [|split].
   - intros k H. rewrite refused_unchanged; auto.
   - intros A [K|[K|K]]; [apply install_wf|apply revert_wf|apply disable_wf]; auto.
-  - intros j A K ND RS CG. apply failed_op_wf; auto.
+  - intros j A K ND CG. apply failed_op_wf; auto.
 Qed.
 Print Assumptions C11_consistent_invariant_partial.
